@@ -349,6 +349,8 @@ class PointTier(textgrid_tier.TextgridTier):
         # Every point at that time collides (a tier can hold several)
         matchList = [point for point in self.entries if point.time == newPoint.time]
         point = newPoint
+        # Times are stored as floats (as in the constructor)
+        newPoint = Point(float(newPoint.time), newPoint.label)
 
         if len(matchList) == 0:
             self._entries.append(newPoint)
